@@ -298,6 +298,12 @@ Proof.
   split; [reflexivity|]. simpl. split; reflexivity.
 Qed.
 
+Lemma pinv_finished : forall c i1 l r,
+  i_res i1 = Some r -> i_lock i1 = Unlocked -> i_buf i1 = None -> pinv c (settle (mkP i1 l [])).
+Proof.
+  intros c i1 l r H A B. unfold settle; simpl. rewrite H. split; [reflexivity|]. simpl. rewrite H. split; assumption.
+Qed.
+
 Lemma pstep_inv : forall oth c p,
   reach c -> pinv c p ->
   reach (fst (pstep o ms oth c p)) /\ pinv (fst (pstep o ms oth c p)) (snd (pstep o ms oth c p)) /\
@@ -322,9 +328,12 @@ Proof.
         { destruct Hshape as [Hs|Hs]; [discriminate|exact Hs]. }
         destruct (exec_vs_solo o oth ICommit c (p_inst p) b Eb (or_introl I)) as [He|[_ [He _]]];
           [|rewrite He in H; discriminate].
-        unfold finish in Hfin. rewrite Et in Hfin. simpl run_list in Hfin. rewrite Er in Hfin.
-        rewrite <- He in Hfin. rewrite (run_list_finished _ _ _ _ _ _ H) in Hfin.
-        destruct Hfin as [Hfin|Hfin]; rewrite Hfin; [exact Hc|right; right; right; reflexivity].
+        unfold finish in Hfin. rewrite Et in Hfin.
+        assert (Hfin' : fst (run_list [] o [] r (exec [] o [] ICommit c (p_inst p))) = c \/
+                        fst (run_list [] o [] r (exec [] o [] ICommit c (p_inst p))) = FIN).
+        { simpl run_list in Hfin. rewrite Er in Hfin. exact Hfin. }
+        rewrite <- He in Hfin'. rewrite (run_list_finished _ _ _ _ _ _ H) in Hfin'.
+        destruct Hfin' as [Hfin'|Hfin']; rewrite Hfin'; [exact Hc|right; right; right; reflexivity].
       * destruct Hp as [_ [Hs|[Hs|[Hs|Hs]]]]; discriminate.
   - (* the instance's own invariant *)
     destruct (i_buf (p_inst p)) as [b|] eqn:Eb.
@@ -335,53 +344,54 @@ Proof.
         rewrite exec_fst_readids.
         destruct (exec_vs_solo o oth IReadIds c (p_inst p) b Eb (or_intror eq_refl)) as [He|[_ [He [Hl1 Hb1]]]].
         -- rewrite He. unfold finish in Hfin. rewrite Et in Hfin. cbv zeta in Hfin.
-           destruct (i_res (snd (exec [] o [] IReadIds c (p_inst p)))) eqn:Er1.
-           ++ destruct (exec_finished_clean [] o [] IReadIds c (p_inst p) _ Er Er1) as [A B].
-              unfold settle; simpl. rewrite Er1. split; [reflexivity|]. simpl. rewrite Er1. split; assumption.
-           ++ destruct (exec_readids_running o c (p_inst p) b Eb Er1) as [A [B C]].
+           pose proof (exec_finished_clean [] o [] IReadIds c (p_inst p)) as Hclean.
+           pose proof (exec_readids_running o c (p_inst p) b Eb) as Hrun.
+           set (E := exec [] o [] IReadIds c (p_inst p)) in *.
+           destruct (i_res (snd E)) eqn:Er1.
+           ++ destruct (Hclean _ Er eq_refl) as [A B]. eapply pinv_finished; eassumption.
+           ++ destruct (Hrun eq_refl) as [A [B C]]. cbv iota.
               eapply settle_inv; [exact Er1 | exact B | rewrite C; exact Hl | apply plan_txn_instr | ].
-              rewrite (surjective_pairing (exec [] o [] IReadIds c (p_inst p))) in Hfin. rewrite A in Hfin. exact Hfin.
-        -- rewrite He. unfold settle; simpl. rewrite He. split; [reflexivity|]. simpl. rewrite He. split; assumption.
+              rewrite (surjective_pairing E) in Hfin. rewrite A in Hfin. exact Hfin.
+        -- eapply pinv_finished; eassumption.
       * (* inside the blocks *)
         inversion Hs as [|? ? Hx Hr']; subst.
+        assert (Hnx : (match x with IReadIds => plan o (i_ver (snd (exec [] o oth x c (p_inst p)))) (i_ids (snd (exec [] o oth x c (p_inst p)))) ms | _ => r end) = r)
+          by (destruct x; simpl in Hx; try destruct Hx; reflexivity).
+        rewrite Hnx. clear Hnx.
         destruct (exec_vs_solo o oth x c (p_inst p) b Eb (or_introl Hx)) as [He|[Hc1 [He [Hl1 Hb1]]]].
         -- rewrite He. unfold finish in Hfin. rewrite Et in Hfin.
            assert (Hfin' : fst (run_list [] o [] r (exec [] o [] x c (p_inst p))) = c \/
                            fst (run_list [] o [] r (exec [] o [] x c (p_inst p))) = FIN).
            { destruct x; simpl in Hx; try destruct Hx; simpl run_list in Hfin; rewrite Er in Hfin; exact Hfin. }
-           destruct (i_res (snd (exec [] o [] x c (p_inst p)))) eqn:Er1.
-           ++ destruct (exec_finished_clean [] o [] x c (p_inst p) _ Er Er1) as [A B].
-              assert (Hnx : match x with IReadIds => False | _ => True end) by (destruct x; simpl in Hx; try destruct Hx; exact I).
-              replace (match x with IReadIds => plan o (i_ver (snd (exec [] o [] x c (p_inst p)))) (i_ids (snd (exec [] o [] x c (p_inst p)))) ms | _ => r end) with r
-                by (destruct x; simpl in Hnx; try destruct Hnx; reflexivity).
-              unfold settle; simpl. rewrite Er1. split; [reflexivity|]. simpl. rewrite Er1. split; assumption.
-           ++ destruct (exec_txn_running o x c (p_inst p) b Hx Eb Hl Er1) as [A [[b' B] C]].
-              replace (match x with IReadIds => plan o (i_ver (snd (exec [] o [] x c (p_inst p)))) (i_ids (snd (exec [] o [] x c (p_inst p)))) ms | _ => r end) with r
-                by (destruct x; simpl in Hx; try destruct Hx; reflexivity).
+           pose proof (exec_finished_clean [] o [] x c (p_inst p)) as Hclean.
+           pose proof (exec_txn_running o x c (p_inst p) b Hx Eb Hl) as Hrun.
+           set (E := exec [] o [] x c (p_inst p)) in *.
+           destruct (i_res (snd E)) eqn:Er1.
+           ++ destruct (Hclean _ Er eq_refl) as [A B]. eapply pinv_finished; eassumption.
+           ++ destruct (Hrun eq_refl) as [A [[b' B] C]].
               rewrite A. eapply settle_inv; [exact Er1 | exact B | exact C | exact Hr' | ].
-              rewrite (surjective_pairing (exec [] o [] x c (p_inst p))) in Hfin'. rewrite A in Hfin'. exact Hfin'.
-        -- rewrite Hc1. rewrite He.
-           unfold settle; simpl. rewrite He. split; [reflexivity|]. simpl. rewrite He. split; assumption.
+              rewrite (surjective_pairing E) in Hfin'. rewrite A in Hfin'. exact Hfin'.
+        -- rewrite Hc1. rewrite He. eapply pinv_finished; eassumption.
     + (* still outside the transaction's first read *)
-      destruct Hp as [Hl Hsuf]. rewrite Et in Hsuf.
+      destruct Hp as [Hl Hsuf].
+      destruct p as [[res txn buf lk ver ids lg n] todo fl]. simpl in Hf, Er, Eb, Et, Hl. subst res buf fl lk todo.
       destruct Hsuf as [Hs|[Hs|[Hs|Hs]]]; injection Hs as -> ->.
       * (* ICreate *)
-        simpl. rewrite Er.
-        destruct (create_is_write c); [destruct (can_autocommit_write oth)|destruct (can_shared oth)]; simpl;
-          (split; [reflexivity|]); simpl; rewrite ?Er, ?Eb; simpl; auto;
-          split; auto; unfold prelude_suffix; auto.
+        simpl. destruct (create_is_write c); [destruct (can_autocommit_write oth)|destruct (can_shared oth)];
+          unfold pinv, settle; simpl; repeat split; auto; unfold prelude_suffix; auto.
       * (* IAlter *)
-        simpl. rewrite Er.
-        destruct (sql_alter_vt c); [destruct (can_autocommit_write oth)|]; simpl;
-          (split; [reflexivity|]); simpl; rewrite ?Er, ?Eb; simpl;
-          split; auto; unfold prelude_suffix; auto.
+        simpl. destruct (sql_alter_vt c); [destruct (can_autocommit_write oth)|];
+          unfold pinv, settle; simpl; repeat split; auto; unfold prelude_suffix; auto.
       * (* IBegin *)
-        simpl. rewrite Er. split; [reflexivity|]. simpl. rewrite Er, Eb. split; auto. unfold prelude_suffix; auto.
+        unfold pinv, settle; simpl; repeat split; auto; unfold prelude_suffix; auto.
       * (* IReadMax *)
-        destruct (i_res (snd (exec [] o oth IReadMax c (p_inst p)))) eqn:Er1.
-        -- destruct (exec_finished_clean [] o oth IReadMax c (p_inst p) _ Er Er1) as [A B].
-           unfold settle; simpl. rewrite Er1. split; [reflexivity|]. simpl. rewrite Er1. split; assumption.
-        -- destruct (txn_sound c (p_inst p) oth Hc Er Eb Er1) as [A [B [C D]]].
+        simpl p_inst.
+        pose proof (exec_finished_clean [] o oth IReadMax c (mkInst None txn None Unlocked ver ids lg n)) as Hclean.
+        pose proof (txn_sound c (mkInst None txn None Unlocked ver ids lg n) oth Hc eq_refl eq_refl) as Hsound.
+        set (E := exec [] o oth IReadMax c (mkInst None txn None Unlocked ver ids lg n)) in *.
+        destruct (i_res (snd E)) eqn:Er1.
+        -- destruct (Hclean _ eq_refl eq_refl) as [A B]. eapply pinv_finished; eassumption.
+        -- destruct (Hsound eq_refl) as [A [B [C D]]].
            rewrite A. unfold settle; simpl. rewrite Er1. split; [reflexivity|]. simpl. rewrite Er1, B.
            split; [rewrite C; discriminate|]. split; [left; reflexivity|exact D].
 Qed.
